@@ -7,7 +7,7 @@ import itertools, json, os, sys, warnings
 
 warnings.simplefilter('ignore')
 ARGS = ['a', '*a', '**a', 'k=a', 'k=b', 'j=a', '*a,']
-PARAMS = ['a', 'b', 'a=1', 'b=1', '*', '*a', '**k', '/', '*b', '**k2', 'c']
+PARAMS = ['a', 'b', 'a=1', 'b=1', '*', '*a', '**k', '/', '*b', '**k2', 'c', '**a', '**b']
 N = 5 if os.environ.get("VERIF_NATIVE_SIZE", "quick") == "thorough" else 4
 
 
